@@ -66,8 +66,8 @@ theorem namedOk_nil_keys (f : FuncDef) (call : Call) :
   rw [Bool.eq_iff_iff]
   simp only [List.contains_eq_mem, List.all_eq_true, Bool.and_eq_true, Bool.not_eq_true',
     decide_eq_true_eq, decide_eq_false_iff_not, List.any_eq_false, List.not_mem_nil,
-    not_false_eq_true, implies_true, and_true, Bool.or_eq_false_iff, Bool.not_eq_false',
-    Bool.not_eq_true, Bool.decide_eq_true]
+    not_false_eq_true, implies_true, and_true, Bool.or_eq_false_iff, Bool.not_eq_false'
+    ]
   constructor
   · rintro ⟨h1, h2⟩
     refine ⟨fun x hx => ?_, h2, fun x hx => ?_⟩
@@ -114,7 +114,7 @@ theorem phases_named (f : FuncDef) (args : List ArgSpec) :
     (phases f (toCall args)).named = namedPart (namedArgs f args) := by
   have hl := phases_lead_length f args
   simp only [phases, List.length_map] at hl
-  simp only [phases, List.length_map, hl]
+  simp only [phases, hl]
   simp [toCall, namedArgs, namedPart, ← List.map_drop, List.takeWhile_map, List.filterMap_map,
     isNamed, Function.comp_def]
 
@@ -122,7 +122,7 @@ theorem phases_tail (f : FuncDef) (args : List ArgSpec) :
     (phases f (toCall args)).tail = toCall (tailArgs f args) := by
   have hl := phases_lead_length f args
   simp only [phases, List.length_map] at hl
-  simp only [phases, List.length_map, hl]
+  simp only [phases, hl]
   simp [toCall, tailArgs, ← List.map_drop, List.dropWhile_map, isNamed, Function.comp_def]
 
 theorem mem_takeWhile_imp' {α} (p : α → Bool) (l : List α) (a : α) (h : a ∈ l.takeWhile p) :
